@@ -11,7 +11,10 @@ LEVEL = "other"
 EXPLANATION = ("bounded stand-in only: parse_match is string surgery (rsplit / partition / re.escape + replace) whose meaning is a regular-language statement "
                "about the query text; relating re.escape(token).replace('\\\\*', '.*') to 'shell pattern over the whole string' for all tokens needs an inductive "
                "argument over the token that the self-built generator cannot state.  The real parse_match is run on systematically generated queries and compared "
-               "with an fnmatch-based reference.")
+               "with an fnmatch-based reference.  Under contract and proved for every text / token: collect_ops (the operator prefix is split off exactly: "
+               "loop invariant over the scanned prefix) and convert_glob's dispatch (no restriction exactly for '' and '*', an exact match on the token itself "
+               "exactly when it holds no star, ParseError exactly when valid_globbing refuses the glob, otherwise the pattern '^' + re.escape(token) with "
+               "every '\\*' replaced by '.*' + '$' applied with match=True); what re then accepts for that pattern stays with the bounded stand-in.")
 
 MANIFEST = {
     "text": "Bounded stand-in: every glob of <= 4 symbols over {a, b, +, ., -, 1, *} in the category, the package, the slot and the sub-slot "
@@ -19,9 +22,11 @@ MANIFEST = {
             "atom strings, is parsed with the real parse_match and evaluated on a package universe built to separate literal from "
             "regular-expression readings of + and . (gtk, gtk+, gtkk, a.b, aXb ...); the selection must equal an fnmatch.fnmatchcase "
             "reference on the fields plus the version / repository constraint; strings containing '!' must raise ParseError.",
-    "note": "Trusted: fnmatch.fnmatchcase as the meaning of 'whole-string shell pattern with *', atom matching (C04), VersionMatch (C07).",
+    "note": "Proved for all inputs (16 obligations): collect_ops and convert_glob's dispatch, with valid_globbing and re.escape as uninterpreted functions and str.replace as "
+            "SMT-LIB str.replace_all; the decision for the property as a whole stays with the bounded stand-in.  Trusted: fnmatch.fnmatchcase as the meaning of 'whole-string shell pattern with *', atom matching (C04), VersionMatch (C07).",
 }
-ASSUMPTIONS = ["only * is a wildcard in query globs; every other admissible character (word characters, - . +) is literal"]
+ASSUMPTIONS = ["convert_glob's contract treats re.escape and valid_globbing as uninterpreted functions and the meaning of the built pattern under re as given (covered by the bounded stand-in only)",
+               "only * is a wildcard in query globs; every other admissible character (word characters, - . +) is literal"]
 
 
 def universe():
@@ -152,8 +157,114 @@ def enum_queries(seed):
             "cases": cases, "failures": fails}
 
 
+OPS = ("<", "=", ">", "~")
+
+
+def t_collect_ops(ex):
+    """collect_ops(text) splits the text into its longest prefix of version-operator characters and the rest -- for every text"""
+    import z3
+    from pyvc.api import call, Interp
+    from pyvc.interp import LoopSpec
+    from pyvc.sym import KStr, SBool, SInt, SStr
+    P = "C44.collect_ops"
+    text = KStr.fresh("text")
+    ex.inputs.update({"text": text})
+    is_op = lambda c: z3.Or(*[c == z3.StringVal(o) for o in OPS])
+
+    def inv(L, k):
+        i = L.i.t if isinstance(L.i, SInt) else z3.IntVal(L.i)
+        j = z3.Int("j!c44")
+        return SBool(z3.And(i >= 0, i <= z3.Length(text.t),
+                            z3.ForAll([j], z3.Implies(z3.And(j >= 0, j < i), is_op(z3.SubString(text.t, j, 1))))))
+    it = Interp(ex, label=P, loops={("collect_ops", 0): LoopSpec(inv)})
+    out = call(it, it.target(PR, "collect_ops"), text)
+    ex.oblige(f"{P}.raises.nothing", not out.raised, kind="exceptional-postcondition")
+    if out.raised:
+        return
+    r = out.value
+    shape = isinstance(r, tuple) and len(r) == 2 and all(isinstance(x, (str, SStr)) for x in r)
+    ex.oblige(f"{P}.ensures.returns_a_pair_of_strings", shape)
+    if not shape:
+        return
+    ex.cover("returns")
+    ops, rest = [x.t if isinstance(x, SStr) else z3.StringVal(x) for x in r]
+    j = z3.Int("j!c44post")
+    ex.oblige(f"{P}.ensures.operators_followed_by_rest_is_the_text", SBool(z3.Concat(ops, rest) == text.t))
+    # (the first part is the text's prefix of its own length -- the obligation above -- so its characters are stated as the text's)
+    ex.oblige(f"{P}.ensures.the_first_part_holds_operator_characters_only",
+              SBool(z3.And(z3.PrefixOf(ops, text.t), z3.ForAll([j], z3.Implies(z3.And(j >= 0, j < z3.Length(ops)), is_op(z3.SubString(text.t, j, 1)))))))
+    ex.oblige(f"{P}.ensures.the_rest_does_not_start_with_an_operator_character",
+              SBool(z3.Or(rest == z3.StringVal(""), z3.Not(is_op(z3.SubString(rest, 0, 1))))))
+
+
+def t_convert_glob(ex):
+    """convert_glob(token): which kind of value restriction a token becomes -- no restriction exactly for '' and '*', an exact string match on the
+    token itself exactly when it holds no '*', a rejected token exactly when valid_globbing refuses it, otherwise an anchored (whole-string,
+    match=True) regular expression built from the escaped token with every escaped star turned into '.*'.  What the regular expression then
+    accepts (re's semantics) stays with the bounded stand-in."""
+    import z3
+    from pyvc.api import call, Interp
+    from pyvc.models import Model, replace_all
+    from pyvc.sym import KStr, SBool, SStr
+    from pyvc import theory
+    import pkgcore.util.parserestrict as M
+    from pkgcore.restrictions import values
+    P = "C44.convert_glob"
+    token = KStr.fresh("token")
+    ex.inputs.update({"token": token})
+    VALID = theory.ufun("valid_globbing", z3.StringSort(), z3.BoolSort())
+    ESC = theory.ufun("re_escape", z3.StringSort(), z3.StringSort())
+    S_ = lambda v: v.t if isinstance(v, SStr) else z3.StringVal(v)
+    made = []
+
+    def exact(it_, s, *a, **kw):
+        made.append(("exact", s, a, kw))
+        return ("exact", s, a, tuple(sorted(kw.items())))
+
+    def regex(it_, s, *a, **kw):
+        return ("regex", s, a, tuple(sorted(kw.items())))
+    it = Interp(ex, label=P, models={
+        M.valid_globbing: Model(lambda it_, t: SBool(VALID(S_(t))), "valid_globbing", pure=True),
+        M.re.escape: Model(lambda it_, t: SStr(ESC(S_(t))), "re.escape", pure=True),
+        values.StrExactMatch: exact,
+        values.StrRegex: regex,
+    })
+    out = call(it, it.target(PR, "convert_glob"), token)
+    star = z3.Contains(token.t, z3.StringVal("*"))
+    trivial = z3.Or(token.t == z3.StringVal("*"), token.t == z3.StringVal(""))
+    if out.raised:
+        ex.cover("rejects")
+        ex.oblige(f"{P}.raises.ParseError_only", out.exc.cls.__name__ == "ParseError", kind="exceptional-postcondition")
+        ex.oblige(f"{P}.raises.only_for_a_glob_that_valid_globbing_refuses", SBool(z3.And(z3.Not(trivial), star, z3.Not(VALID(token.t)))), kind="exceptional-postcondition")
+        return
+    r = out.value
+    if r is None:
+        ex.cover("no restriction")
+        ex.oblige(f"{P}.ensures.no_restriction_only_for_the_empty_token_and_the_lone_star", SBool(trivial))
+    elif isinstance(r, tuple) and r[0] == "exact":
+        ex.cover("exact match")
+        ex.oblige(f"{P}.ensures.exact_match_only_for_a_token_without_a_star", SBool(z3.And(z3.Not(trivial), z3.Not(star))))
+        ex.oblige(f"{P}.ensures.exact_match_is_on_the_token_itself_case_sensitive_not_negated",
+                  SBool(S_(r[1]) == token.t) if isinstance(r[1], (str, SStr)) else False)
+        kw = dict(r[3])
+        ex.oblige(f"{P}.ensures.exact_match_takes_the_default_flags", r[2] == () and not kw.get("negate", False) and kw.get("case_sensitive", True) is True and set(kw) <= {"negate", "case_sensitive"})
+    elif isinstance(r, tuple) and r[0] == "regex":
+        ex.cover("regular expression")
+        ex.oblige(f"{P}.ensures.regular_expression_only_for_an_admissible_glob", SBool(z3.And(z3.Not(trivial), star, VALID(token.t))))
+        want = z3.Concat(z3.StringVal("^"), replace_all(ESC(token.t), z3.StringVal("\\*"), z3.StringVal(".*")), z3.StringVal("$"))
+        ex.oblige(f"{P}.ensures.pattern_is_the_escaped_token_with_each_escaped_star_widened_and_anchored_at_both_ends",
+                  SBool(S_(r[1]) == want) if isinstance(r[1], (str, SStr)) else False)
+        kw = dict(r[3])
+        ex.oblige(f"{P}.ensures.the_pattern_is_applied_from_the_start_of_the_field_not_searched_not_negated",
+                  r[2] == () and kw.get("match") is True and not kw.get("negate", False) and kw.get("case_sensitive", True) is True and set(kw) <= {"match", "negate", "case_sensitive"})
+    else:
+        ex.oblige(f"{P}.ensures.result_is_None_an_exact_match_or_a_regular_expression", False)
+
+
 def tasks():
-    return [Task("C44.queries", None, [(PR, "parse_match"), (PR, "convert_glob"), (PR, "parse_globbed_version")], enumerate=enum_queries)]
+    return [Task("C44.queries", None, [(PR, "parse_match"), (PR, "convert_glob"), (PR, "parse_globbed_version")], enumerate=enum_queries),
+            Task("C44.collect_ops", t_collect_ops, [(PR, "collect_ops")]),
+            Task("C44.convert_glob", t_convert_glob, [(PR, "convert_glob")])]
 
 
 REPLAY = {}
